@@ -424,6 +424,21 @@ class SimCondition(object):
         self._lock.owner = t
         return got
 
+    def wait_for(self, predicate, timeout=None):
+        """as threading.Condition.wait_for"""
+        end = None if timeout is None else self.sched.now + max(0, timeout)
+        result = predicate()
+        while not result:
+            if end is not None:
+                left = end - self.sched.now
+                if left <= 0:
+                    break
+                self.wait(left)
+            else:
+                self.wait(None)
+            result = predicate()
+        return result
+
     def notify(self, n=1):
         self.sched.yield_op("notify", self)
         for w in self.waiters[:n]:
